@@ -700,9 +700,10 @@ impl Storage {
                             generated_by_block_number,
                             generated_by_tx_index,
                             previous_tx,
-                        )) = self.get_transaction(&previous_tx_hash).or(txs
+                        )) = txs
                             .get(&previous_tx_hash)
-                            .map(|(tx_index, tx)| (block_number, *tx_index, tx.clone())))
+                            .map(|(tx_index, tx)| (block_number, *tx_index, tx.clone()))
+                            .or_else(|| self.get_transaction(&previous_tx_hash))
                         {
                             let previous_output_index = input.previous_output().index().unpack();
                             if let Some(previous_output) =
